@@ -128,15 +128,34 @@ def status_constant(repo: Repo, term: str):
 
 def classify(repo: Repo, code: int, cmd: Optional[str]) -> str:
     """Classification of a status code by the folded KNOWN_STATUSES table (same semantics C18 establishes)."""
-    rows = repo.module_const('statuses', 'KNOWN_STATUSES')
     spec = None
     gen = None
-    for row in rows:
-        c, typ, _d, rc = row
-        lo, hi = c if isinstance(c, tuple) else (c, c)
+    for lo, hi, typ, rc, _i in status_rows(repo):
         if lo <= code <= hi:
             if rc is None:
                 gen = typ
-            elif isinstance(rc, ClassRef) and rc.name == cmd:
+            elif rc == cmd:
                 spec = typ
     return spec or gen or 'Failure'
+
+
+def status_rows(repo: Repo):
+    """KNOWN_STATUSES folded to (first code, last code, type, response class name or None, row index); a row whose
+    command column is a tuple/list of classes stands for one row per class"""
+    rows = repo.module_const('statuses', 'KNOWN_STATUSES')
+    out = []
+    for i, row in enumerate(rows):
+        if not (isinstance(row, tuple) and len(row) == 4):
+            out.append((None, None, None, ('malformed', row), i))
+            continue
+        c, typ, _d, rc = row
+        lo, hi = c if isinstance(c, tuple) else (c, c)
+        cmds = list(rc) if isinstance(rc, (tuple, list)) else [rc]
+        for one in cmds:
+            if one is None:
+                out.append((lo, hi, typ, None, i))
+            elif isinstance(one, ClassRef):
+                out.append((lo, hi, typ, one.name, i))
+            else:
+                out.append((lo, hi, typ, ('notclass', one), i))
+    return out
